@@ -6,6 +6,7 @@ three range mappers, to the escape predicates or to PortableDataHash breaks one 
 -/
 import ArvVerif.Gen.FactsC10
 import ArvVerif.Model.C10_Py
+import ArvVerif.Model.C10_Digest
 namespace ArvVerif.Tie.C10
 open ArvVerif.Facts.C10
 
@@ -328,5 +329,46 @@ theorem tie_model_emptyLocator :
     ArvVerif.C10.emptyBlockLocator = ArvVerif.C10.str (sendStrings.getD 1 "") := rfl
 theorem tie_model_emptyLocator_norm :
     ArvVerif.C10.emptyBlockLocator = ArvVerif.C10.str (normalizedTextStrings.getD 0 "") := rfl
+
+/-! ## blockdigest.go (third extension pass): Model/C10_Digest.lean -/
+
+/-- `FromString`: Model `digestFromString` (length 32, two `ParseUint(·, 16, 64)` halves of 16 characters). -/
+theorem tie_fromStringConds : fromStringConds = ["if len(s) != 32", "if err != nil", "if err != nil"] := rfl
+theorem tie_fromStringCalls : fromStringCalls = ["strconv.ParseUint", "strconv.ParseUint"] := rfl
+theorem tie_fromStringInts : fromStringInts = [32, 16, 16, 64, 16, 16, 64] := rfl
+
+/-- `BlockDigest.String`: Model `digestString` = `hexPad 16 H ++ hexPad 16 L`. -/
+theorem tie_digestStringReturns : digestStringReturns = ["fmt.Sprintf(\"%016x%016x\", d.H, d.L)"] := rfl
+
+/-- `IsBlockLocator`: Model `isBlockLocator = isGoLocator` (the pattern itself: `tie_locatorPattern`). -/
+theorem tie_isBlockLocatorReturns : isBlockLocatorReturns = ["LocatorPattern.MatchString(s)"] := rfl
+
+/-- `blockdigest.ParseBlockLocator`: Model `parseBlockLocator` (pattern test, split on `+`, `FromString(tokens[0])`,
+`ParseInt(tokens[1], 10, 0)`, `Hints = tokens[2:]`). -/
+theorem tie_bdParseLocConds : bdParseLocConds = ["if !LocatorPattern.MatchString(s)", "if err != nil", "if err != nil"] := rfl
+theorem tie_bdParseLocCalls : bdParseLocCalls =
+    ["LocatorPattern.MatchString", "strings.Split", "FromString", "strconv.ParseInt", "int"] := rfl
+theorem tie_bdParseLocInts : bdParseLocInts = [0, 1, 10, 0, 2] := rfl
+theorem tie_bdParseLocAssigns : bdParseLocAssigns =
+    ["tokens := strings.Split(s, \"+\")",
+     "blockDigest, err = FromString(tokens[0])",
+     "blockSize, err = strconv.ParseInt(tokens[1], 10, 0)",
+     "b.Digest = blockDigest",
+     "b.Size = int(blockSize)",
+     "b.Hints = tokens[2:]"] := rfl
+
+/-- `manifest.ParseBlockLocator` is the same function (Model: the same `parseBlockLocator`). -/
+theorem tie_pkgParseLocConds : pkgParseLocConds =
+    ["if !blockdigest.LocatorPattern.MatchString(s)", "if err != nil", "if err != nil"] := rfl
+theorem tie_pkgParseLocCalls : pkgParseLocCalls =
+    ["blockdigest.LocatorPattern.MatchString", "strings.Split", "blockdigest.FromString", "strconv.ParseInt", "int"] := rfl
+theorem tie_pkgParseLocInts : pkgParseLocInts = [0, 1, 10, 0, 2] := rfl
+theorem tie_pkgParseLocAssigns : pkgParseLocAssigns =
+    ["tokens := strings.Split(s, \"+\")",
+     "blockDigest, err = blockdigest.FromString(tokens[0])",
+     "blockSize, err = strconv.ParseInt(tokens[1], 10, 0)",
+     "b.Digest = blockDigest",
+     "b.Size = int(blockSize)",
+     "b.Hints = tokens[2:]"] := rfl
 
 end ArvVerif.Tie.C10
